@@ -2,6 +2,13 @@
 
 The model (`Schema.find`, forms) is fed with vocabularies read from the bundled XML by our own reader
 (harness/schema_xml.py); the implementation side is `HedTag(text, schema)` of the loaded schema.
+
+Bulk stream (`run_bulk`): whole cells assembled from the generated spellings (groups, blanks, empty cells, `n/a`,
+unknown tags) go through `df_util.convert_to_form` on a Series, on a DataFrame with a column subset, and through
+`HedString.get_as_short()/get_as_long()`; the model side is `Schema.convertText` (`c03.convert`) and
+`Schema.convertFrame` (`c03.convertdf`).  The direct oracle compares every converted cell with the text printed
+from OUR reading of the XML (short = last component of the node's path, long = the path), not with another hed
+function.
 """
 import json
 
@@ -34,6 +41,28 @@ THEOREMS = [
     "HedVerif.C03.forms_roundtrip_remainder",
     "HedVerif.C03.short_long_fixpoint",
     "HedVerif.C03.no_aliasing",
+    # bulk conversion (df_util.convert_to_form, HedString.get_as_short/get_as_long)
+    "HedVerif.Schema.joinSlash_splitSlash",
+    "HedVerif.Schema.walk_inv",
+    "HedVerif.Schema.found_inv",
+    "HedVerif.C03.tag_fix",
+    "HedVerif.C03.tagForm_valid",
+    "HedVerif.C03.tagForm_tagForm",
+    "HedVerif.C03.convert_render",
+    "HedVerif.C03.convert_tree",
+    "HedVerif.C03.convert_preserves_shape",
+    "HedVerif.C03.convert_tagwise",
+    "HedVerif.C03.convert_convert",
+    "HedVerif.C03.convert_short_long",
+    "HedVerif.C03.convert_idempotent",
+    "HedVerif.C03.convert_unbalanced",
+    "HedVerif.C03.convert_df_columns",
+    "HedVerif.C03.convert_df_all",
+    "HedVerif.C03.convert_df_keyerror",
+    "HedVerif.C03.convert_series",
+    "HedVerif.C03.convert_idempotent_counterexample",
+    "HedVerif.C03.exBulkOK",
+    "HedVerif.C03.foldLower_sharp",
 ]
 BUDGET = {"quick": 900, "thorough": 3600}
 
@@ -101,6 +130,315 @@ def oracle(HedTag, schema, text, node_long, form, rem, ns, r, has_val):
     return None
 
 
+# ------------------------------------------------------------------------------------- bulk conversion
+
+FORMS = (("short", "short_tag"), ("long", "long_tag"))
+SIG_INTERIOR = "C03-placeholder-followed-by-text"
+
+
+def canonical(ns, long, rem):
+    """(short, long) text of a spelling of node `long` with remainder `rem`, from OUR reading of the XML"""
+    return ns + long.split("/")[-1] + rem, ns + long + rem
+
+
+def render(items, which):
+    """independent printing of a cell: children joined by ',', groups in parentheses, no blanks"""
+    return ",".join(it[1][which] if it[0] == "t" else "(" + render(it[1], which) + ")" for it in items)
+
+
+def depth_of(items):
+    return max([0] + [1 + depth_of(it[1]) for it in items if it[0] == "g"])
+
+
+def leaves(items):
+    for it in items:
+        if it[0] == "t":
+            yield it[1]
+        else:
+            yield from leaves(it[1])
+
+
+def _blank(rng):
+    return " " * rng.choice((0, 0, 0, 1, 1, 2))
+
+
+def gen_items(rng, pool, depth, maxn):
+    items = []
+    for _ in range(rng.randint(1, maxn)):
+        if depth > 0 and rng.random() < 0.3:
+            items.append(("g", [] if rng.random() < 0.06 else gen_items(rng, pool, depth - 1, 3)))
+        else:
+            items.append(("t", rng.choice(pool)))
+    return items
+
+
+def write_items(rng, items):
+    parts = []
+    for it in items:
+        inner = it[1]["text"] if it[0] == "t" else "(" + (write_items(rng, it[1]) or _blank(rng)) + ")"
+        parts.append(_blank(rng) + inner + _blank(rng))
+    return ",".join(parts)
+
+
+def build_pool(cases, ns, known_shorts):
+    """leaf records {text, short, long} (expected forms known) and messy texts (model comparison and laws only)"""
+    good, messy = [], []
+    for text, long, form, rem, kind in cases:
+        if kind in ("plain", "value"):
+            sh, lg = canonical(ns, long, rem)
+            good.append({"text": text, "short": sh, "long": lg, "kind": kind, "partial": "/" in form and form != long})
+        elif kind in ("ext", "ext2"):
+            if rem[1:].split("/")[0].casefold() in known_shorts:
+                messy.append(text)   # the first extension term is a real child: a deeper node is the right answer
+            else:
+                sh, lg = canonical(ns, long, rem)
+                good.append({"text": text, "short": sh, "long": lg, "kind": kind, "partial": "/" in form and form != long})
+        elif kind in ("unknown", "wrong-ns"):
+            # a tag that cannot be identified is left as written
+            good.append({"text": text, "short": text, "long": text, "kind": kind, "partial": False})
+        else:
+            messy.append(text)
+    return good, messy
+
+
+def gen_cells(rng, good, messy, n):
+    """[(text, items or None)]: items = the structure the text was written from (expected output known)"""
+    cells = [("", []), ("n/a", [("t", {"text": "n/a", "short": "n/a", "long": "n/a", "kind": "n/a", "partial": False})]),
+             ("   ", None), ("()", [("g", [])])]
+    changed = [g for g in good if g["short"] != g["text"] or g["long"] != g["text"]]
+    slashless = [g for g in changed if "/" not in g["text"]]
+    while len(cells) < n:
+        k = rng.random()
+        if k < 0.08 and slashless:
+            # cells without any '/', single or several tags
+            items = [("t", rng.choice(slashless)) for _ in range(rng.randint(1, 3))]
+            cells.append((write_items(rng, items), items))
+        elif k < 0.80:
+            items = gen_items(rng, changed if rng.random() < 0.5 else good, rng.randint(0, 3), 4)
+            cells.append((write_items(rng, items), items))
+        elif k < 0.90 and messy:
+            # malformed tags mixed in: model comparison and the laws only
+            items = gen_items(rng, good, rng.randint(0, 2), 3)
+            txt = write_items(rng, items)
+            cells.append((txt + "," + rng.choice(messy) if rng.random() < 0.5 else rng.choice(messy) + " , (" + txt + ")", None))
+        else:
+            # damaged structure: doubled / leading / trailing commas, unbalanced parentheses
+            items = gen_items(rng, good, rng.randint(0, 2), 3)
+            txt = write_items(rng, items)
+            how = rng.randrange(5)
+            if how == 0:
+                txt = txt.replace(",", ",,", 1) if "," in txt else "," + txt
+            elif how == 1:
+                txt = txt + ","
+            elif how == 2:
+                txt = "(" + txt
+            elif how == 3:
+                txt = txt + ")"
+            else:
+                txt = txt.replace("(", "", 1) if "(" in txt else txt + " ( "
+            cells.append((txt, None))
+    return cells
+
+
+def impl_series(texts, schema, form):
+    import pandas as pd
+    from hed.models.df_util import convert_to_form
+    ser = pd.Series(list(texts), dtype=object)
+    ret = convert_to_form(ser, schema, form)
+    return ret, list(ser)
+
+
+def run_bulk(ctx, name, ns, schema, cases, known_shorts, n_cells):
+    """generate the cells of one schema run and the model requests for them"""
+    rng = ctx.rng
+    key = name + ns
+    good, messy = build_pool(cases, ns, known_shorts)
+    cells = gen_cells(rng, good, messy, n_cells)
+    texts = [c[0] for c in cells]
+    # placeholder probes: `Label/#/#/x` (outside the side condition of the fixpoint theorems)
+    vals = [g for g in good if g["kind"] == "value" and g["text"].endswith("/#")]
+    probes = [rng.choice(vals)["text"] + tail for tail in ("/#/x", "/x", "/#") for _ in range(2)] if vals else []
+    all_texts = texts + probes
+    nfr = min(12, len(texts))
+    fr_names = ["onset", "HED", "note", "HED2"]
+    fr_cols = [[str(i) for i in range(nfr)], texts[:nfr], texts[:nfr][::-1], (texts[nfr:2 * nfr] + [""] * nfr)[:nfr]]
+    reqs = []
+    for t in all_texts:
+        for _, f in FORMS:
+            reqs.append({"op": "c03.convert", "schema": key, "form": f, "text": t})
+    reqs.append({"op": "c03.convertdf", "schema": key, "form": "short_tag", "names": fr_names, "cols": fr_cols,
+                 "columns": ["HED", "HED2"]})
+    reqs.append({"op": "c03.convertdf", "schema": key, "form": "long_tag", "names": fr_names[1:], "cols": fr_cols[1:]})
+    reqs.append({"op": "c03.convertdf", "schema": key, "form": "long_tag", "names": fr_names, "cols": fr_cols,
+                 "columns": ["HED", "nope"]})
+    return cells, probes, fr_names, fr_cols, reqs
+
+
+def check_bulk(ctx, name, ns, schema, cells, probes, fr_names, fr_cols, answers):
+    import pandas as pd
+    from hed import HedString
+    from hed.models.df_util import convert_to_form
+    texts = [c[0] for c in cells]
+    all_texts = texts + probes
+    base = {"schema": name, "ns": ns}
+    model = {"short_tag": [], "long_tag": []}
+    interior = []
+    k = 0
+    for t in all_texts:
+        flag = False
+        for _, f in FORMS:
+            model[f].append(answers[k]["out"])
+            flag = flag or answers[k]["interiorSharp"]
+            k += 1
+        interior.append(flag)
+    ans_df = answers[k:k + 3]
+
+    def bad(clause, route, form, i, got, want=None, signature=None):
+        case = dict(base, bulk=route, form=form, text=all_texts[i])
+        if want is not None:
+            case["expect"] = want
+        ctx.violation(clause, case, {"got": got, "expected": want}, signature=signature)
+
+    # (i) Series, in place
+    out = {}
+    for short, f in FORMS:
+        try:
+            ret, out[f] = impl_series(all_texts, schema, f)
+        except Exception as e:
+            ctx.violation("bulk-conversion-raised", dict(base, bulk="series", form=f, text="(whole series)"),
+                          f"{type(e).__name__}: {e}")
+            return
+        if ret is not None:
+            ctx.violation("in-place-contract", dict(base, bulk="series", form=f, text=all_texts[0]), f"returned {type(ret).__name__}")
+        for i, t in enumerate(all_texts):
+            if out[f][i] != model[f][i]:
+                ctx.disagree("Schema.convertText = df_util.convert_to_form (Series)", dict(base, bulk="series", form=f, text=t),
+                             model[f][i], out[f][i])
+    ctx.count("bulk:route:series", 2 * len(all_texts))
+
+    # (iii) HedString.get_as_short / get_as_long
+    for i, t in enumerate(all_texts):
+        hs = HedString(t, schema)
+        got = {"short_tag": hs.get_as_short(), "long_tag": hs.get_as_long()}
+        for _, f in FORMS:
+            if got[f] != model[f][i]:
+                ctx.disagree("Schema.convertText = HedString.get_as_short/long", dict(base, bulk="hedstring", form=f, text=t),
+                             model[f][i], got[f])
+            if i < len(cells) and cells[i][1] is not None:
+                want = render(cells[i][1], "short" if f == "short_tag" else "long")
+                if got[f] != want:
+                    bad("HedString.get_as_form: tag not in canonical form", "hedstring", f, i, got[f], want)
+    ctx.count("bulk:route:hedstring", 2 * len(all_texts))
+
+    # direct oracle on the Series route: independent expectations
+    for i, (t, items) in enumerate(cells):
+        tags = list(leaves(items)) if items is not None else []
+        nontriv = any(g["short"] != g["text"] or g["long"] != g["text"] for g in tags)
+        ctx.case((name, ns, "bulk", t), nontrivial=nontriv,
+                 sample=dict(base, cell=t, short=out["short_tag"][i]) if nontriv and len(tags) > 2 and "(" in t else None)
+        ctx.count("bulk:cells")
+        ctx.count("bulk:tags", len(tags))
+        if items is None:
+            ctx.count("bulk:cell:malformed-or-damaged")
+            continue
+        ctx.count(f"bulk:depth={depth_of(items)}")
+        if tags and all("/" not in g["text"] for g in tags) and nontriv:
+            ctx.count("bulk:cell:no-slash-but-not-canonical")
+        for g in tags:
+            ctx.count("bulk:tagkind:" + g["kind"] + ("+partial" if g["partial"] else ""))
+        for short, f in FORMS:
+            want = render(items, short)
+            if out[f][i] != want:
+                bad(f"convert_to_form({f}): tag not in canonical form", "series", f, i, out[f][i], want)
+
+    # the laws, on the implementation alone (Series route again on the outputs)
+    try:
+        _, long_of_short = impl_series(out["short_tag"], schema, "long_tag")
+        _, short_of_long = impl_series(out["long_tag"], schema, "short_tag")
+        _, short_twice = impl_series(out["short_tag"], schema, "short_tag")
+        _, long_twice = impl_series(out["long_tag"], schema, "long_tag")
+    except Exception as e:
+        ctx.violation("bulk-conversion-raised", dict(base, bulk="series", form="short_tag", text="(second pass)"),
+                      f"{type(e).__name__}: {e}")
+        return
+    laws = (("long(short(cell)) != long(cell)", long_of_short, out["long_tag"], "long_tag"),
+            ("short(long(cell)) != short(cell)", short_of_long, out["short_tag"], "short_tag"),
+            ("short(short(cell)) != short(cell)", short_twice, out["short_tag"], "short_tag"),
+            ("long(long(cell)) != long(cell)", long_twice, out["long_tag"], "long_tag"))
+    known_interior = any(f.get("signature") == SIG_INTERIOR and f.get("status") == "finding" for f in ctx.known)
+    for i, t in enumerate(all_texts):
+        for clause, got, want, f in laws:
+            if got[i] != want[i]:
+                if interior[i]:
+                    # outside the side condition of the theorems: `Label/#/#/x` -> `Label/#/x` -> `Label/x`
+                    ctx.count("bulk:placeholder-followed-by-text:law-fails")
+                    if known_interior:
+                        bad(clause, "laws", f, i, got[i], want[i], signature=SIG_INTERIOR)
+                    else:
+                        note = ("convert_to_form is not idempotent on a tag with a placeholder followed by more text "
+                                f"(e.g. {t!r}: short = {out['short_tag'][i]!r}, short again = {short_twice[i]!r}); "
+                                f"reported as finding candidate {SIG_INTERIOR}, outside the side condition "
+                                "`noInteriorSharp` of convert_idempotent")
+                        if not any(SIG_INTERIOR in n for n in ctx.notes):
+                            ctx.notes.append(note)
+                else:
+                    bad(clause, "laws", f, i, got[i], want[i])
+    ctx.count("bulk:laws", 4 * len(all_texts))
+    ctx.count("bulk:placeholder-probes", len(probes))
+
+    # (ii) DataFrame with a column subset, a non-default index; untouched columns stay identical
+    nfr = len(fr_cols[0])
+    if nfr:
+        for (short, f), columns, names, a in ((FORMS[0], ["HED", "HED2"], fr_names, ans_df[0]),
+                                              (FORMS[1], None, fr_names[1:], ans_df[1])):
+            cols = fr_cols[len(fr_names) - len(names):]
+            index = list(range(nfr + 5, 5, -1))
+            df = pd.DataFrame({n: list(c) for n, c in zip(names, cols)}, index=index, dtype=object)
+            before = df.copy(deep=True)
+            case = dict(base, bulk="frame", form=f, text=cols[names.index("HED")][0], columns=columns)
+            try:
+                ret = convert_to_form(df, schema, f, columns)
+            except Exception as e:
+                ctx.violation("bulk-conversion-raised", case, f"{type(e).__name__}: {e}")
+                continue
+            if ret is not None:
+                ctx.violation("in-place-contract", case, f"returned {type(ret).__name__}")
+            if list(df.columns) != names or list(df.index) != index:
+                ctx.violation("frame-shape-changed", case, {"columns": list(df.columns), "index": list(df.index)})
+                continue
+            impl_cols = [list(df[n]) for n in names]
+            if a.get("cols") != impl_cols:
+                ctx.disagree("Schema.convertFrame = df_util.convert_to_form (DataFrame)", case, a, impl_cols)
+            selected = names if columns is None else columns
+            for n, c in zip(names, cols):
+                got = list(df[n])
+                if n not in selected:
+                    if got != list(before[n]):
+                        ctx.violation("unselected-column-changed", dict(case, column=n), {"got": got[:3], "expected": c[:3]})
+                    continue
+                for j, t in enumerate(c):
+                    i = texts.index(t)
+                    if cells[i][1] is None:
+                        continue
+                    want = render(cells[i][1], short)
+                    if got[j] != want:
+                        ctx.violation(f"convert_to_form({f}) on a DataFrame column: tag not in canonical form",
+                                      dict(base, bulk="frame", form=f, text=t, column=n, expect=want), {"got": got[j], "expected": want})
+            ctx.count("bulk:route:frame", nfr * len(selected))
+        # a column that does not exist: KeyError in model and implementation
+        df = pd.DataFrame({n: list(c) for n, c in zip(fr_names, fr_cols)}, dtype=object)
+        try:
+            convert_to_form(df, schema, "long_tag", ["HED", "nope"])
+            impl_err = None
+        except KeyError:
+            impl_err = "KeyError"
+        except Exception as e:
+            impl_err = type(e).__name__
+        if ans_df[2].get("err") != impl_err:
+            ctx.disagree("Schema.convertFrame KeyError = df_util.convert_to_form", dict(base, bulk="frame-missing-column", text=""),
+                         ans_df[2], impl_err)
+
+
 def run_schema(ctx, name, full, ns=""):
     from hed import HedTag
     from harness.props.c10 import install_kind_recorder
@@ -108,11 +446,20 @@ def run_schema(ctx, name, full, ns=""):
     vocab = schema_xml.read(schema_xml.bundled()[name])
     schema = load_impl(name, ns)
     longs = [t["long"] for t in vocab["tags"]]
-    ans = ctx.model.batch([{"op": "c03.schema", "name": name + ns, "ns": ns, "tags": longs}])[0]
+    # duplicates predicted here (a later tag whose folded short name is already registered), so that the vocabulary is
+    # installed once per run; the model's and the loader's lists are compared with it after the batch
+    seen, pred_dups = set(), []
+    for l in longs:
+        k = l.split("/")[-1].casefold()
+        if k == "#":
+            continue
+        if k in seen:
+            pred_dups.append(l)
+        else:
+            seen.add(k)
+    ans = {"dups": pred_dups}
     impl_dups = sorted(e.name for k in schema.tags.duplicate_names.values() for e in k[1:]) \
         if hasattr(schema.tags, "duplicate_names") else []
-    if sorted(ans["dups"]) != impl_dups:
-        ctx.disagree("Schema.register duplicates = loader duplicates", {"schema": name}, ans["dups"], impl_dups)
     ctx.count(f"schema:{name}{ns}:tags", len(longs))
     longset = set(longs)
     known_shorts = {l.split("/")[-1].casefold() for l in longs}
@@ -159,12 +506,26 @@ def run_schema(ctx, name, full, ns=""):
             cases.append((ns + "/" + l, None, None, None, "lead-slash"))
         else:
             cases.append((ns + l + "/", None, None, None, "trail-slash"))
+    n_cells = (1000 if full else 110) if ctx.quick() else (4000 if full else 600)
+    bcells, bprobes, fr_names, fr_cols, breqs = run_bulk(ctx, name, ns, schema, cases, known_shorts, n_cells)
     reqs = [{"op": "c03.schema", "name": name + ns, "ns": ns, "tags": longs}] + \
         [{"op": "c03.find", "schema": name + ns, "text": c[0]} for c in cases]
-    answers = ctx.model.batch(reqs)
+    answers = ctx.model.batch(reqs + breqs)
+    banswers = answers[len(reqs):]
+    answers = answers[:len(reqs)]
+    if sorted(answers[0]["dups"]) != impl_dups:
+        ctx.disagree("Schema.register duplicates = loader duplicates", {"schema": name}, answers[0]["dups"], impl_dups)
+    if sorted(answers[0]["dups"]) != sorted(pred_dups):
+        raise RuntimeError(f"harness: predicted duplicates {pred_dups} differ from the model's {answers[0]['dups']}")
     if not answers[0].get("wf"):
         ctx.notes.append(f"vocabulary {name} does not satisfy C03.WF (a folded form bound to two entries): theorems do not speak about it")
     ctx.count(f"schema:{name}{ns}:WF={answers[0].get('wf')}")
+    ctx.count(f"schema:{name}{ns}:cleanNames={answers[0].get('cleanNames')}")
+    if not answers[0].get("cleanNames"):
+        note = (f"vocabulary {name} does not satisfy Schema.cleanNamesB (a name component that is empty, has a blank at an "
+                "end or contains one of ,()/: , or a `#` that is not a last component): the bulk theorems do not speak about it")
+        if note not in ctx.notes:
+            ctx.notes.append(note)
     for cond, what in (("treeClosed", "C03.TreeClosed (a tag whose parent path is not a tag)"),
                        ("shortDistinct", "C03.ShortDistinct (two tags with the same folded short name)")):
         ctx.count(f"schema:{name}{ns}:{cond}={answers[0].get(cond)}")
@@ -182,7 +543,7 @@ def run_schema(ctx, name, full, ns=""):
             ctx.violation("lookup-raised", {"schema": name, "ns": ns, "text": text}, f"{type(e).__name__}: {e}")
             continue
         ctx.case((name, ns, text), nontrivial=kind != "plain" or "/" in text,
-                 sample={"schema": name, "text": text, "impl": r} if kind in ("value", "badparent") else None)
+                 sample={"schema": name, "text": text, "impl": r} if kind in ("value", "badparent") and len(ctx.samples) < 5 else None)
         ctx.count("kind:" + kind)
         if canon_model(m) != r:
             ctx.disagree("Schema.find/forms = HedTag lookup/forms", {"schema": name, "ns": ns, "text": text}, canon_model(m), r)
@@ -198,12 +559,18 @@ def run_schema(ctx, name, full, ns=""):
             if r.get("err") != "INVALID_PARENT_NODE" and "err" in r:
                 pass
     ctx.check_time()
+    check_bulk(ctx, name, ns, schema, bcells, bprobes, fr_names, fr_cols, banswers)
+    ctx.check_time()
 
 
 def run(ctx):
     ctx.extra["rule"] = ("every tag x every suffix form x case variants x {plain, value, extension, nested extension, "
                          "extension naming a schema tag} (+ malformed/wrong-namespace stream), for the schemas listed in the "
-                         "histogram; non-trivial = partial-path form or with a remainder")
+                         "histogram; non-trivial = partial-path form or with a remainder.  Bulk stream per schema run: cells "
+                         "assembled from those spellings (0-3 nesting levels, random blanks, empty cells, n/a, unknown and "
+                         "malformed tags, damaged structure) through convert_to_form on a Series, on a DataFrame with a "
+                         "column subset, and HedString.get_as_short/long; non-trivial = some tag of the cell is not already "
+                         "in canonical form")
     for n in QUICK_FULL:
         run_schema(ctx, n, True)
     run_schema(ctx, "8.3.0", False, ns="xx:")
@@ -215,12 +582,56 @@ def run(ctx):
         run_schema(ctx, "score_2.0.0", True, ns="sc:")
 
 
+def replay_bulk(ctx, case):
+    """one cell through the three routes again: model, Series, one-column DataFrame, HedString, and the laws"""
+    import pandas as pd
+    from hed import HedString
+    from hed.models.df_util import convert_to_form
+    name, ns, text = case["schema"], case.get("ns", ""), case["text"]
+    vocab = schema_xml.read(schema_xml.bundled()[name])
+    schema = load_impl(name, ns)
+    a = ctx.model.batch([{"op": "c03.schema", "name": name + ns, "ns": ns, "tags": [t["long"] for t in vocab["tags"]]}] +
+                        [{"op": "c03.convert", "schema": name + ns, "form": f, "text": text} for _, f in FORMS])
+    model = {f: a[1 + i]["out"] for i, (_, f) in enumerate(FORMS)}
+    interior = any(x.get("interiorSharp") for x in a[1:])
+    hs = HedString(text, schema)
+    routes = {"hedstring": {"short_tag": hs.get_as_short(), "long_tag": hs.get_as_long()}, "series": {}, "frame": {}}
+    for _, f in FORMS:
+        routes["series"][f] = impl_series([text], schema, f)[1][0]
+        df = pd.DataFrame({"HED": [text], "note": [text]}, index=[7], dtype=object)
+        convert_to_form(df, schema, f, ["HED"])
+        routes["frame"][f] = df["HED"][7]
+        if df["note"][7] != text:
+            ctx.violation("unselected-column-changed", dict(case, column="note"), {"got": df["note"][7], "expected": text})
+    print("cell: ", json.dumps(text), "\nmodel:", json.dumps(model))
+    for r, v in routes.items():
+        print(f"{r:9s}:", json.dumps(v))
+        for _, f in FORMS:
+            if v[f] != model[f]:
+                ctx.disagree(f"Schema.convertText = {r} route", dict(case, bulk=r, form=f), model[f], v[f])
+    want = case.get("expect")
+    f = case.get("form", "short_tag")
+    route = case.get("bulk") if case.get("bulk") in routes else "series"
+    if want is not None and case.get("bulk") != "laws" and routes[route][f] != want:
+        ctx.violation(f"convert_to_form({f}): tag not in canonical form", case, {"got": routes[route][f], "expected": want})
+    s_short, s_long = routes["series"]["short_tag"], routes["series"]["long_tag"]
+    for clause, got, exp in (("long(short(cell)) != long(cell)", impl_series([s_short], schema, "long_tag")[1][0], s_long),
+                             ("short(long(cell)) != short(cell)", impl_series([s_long], schema, "short_tag")[1][0], s_short),
+                             ("short(short(cell)) != short(cell)", impl_series([s_short], schema, "short_tag")[1][0], s_short),
+                             ("long(long(cell)) != long(cell)", impl_series([s_long], schema, "long_tag")[1][0], s_long)):
+        if got != exp:
+            print("law fails:", clause, json.dumps(got), "vs", json.dumps(exp))
+            ctx.violation(clause, case, {"got": got, "expected": exp}, signature=SIG_INTERIOR if interior else None)
+
+
 def replay(ctx, rec):
     from hed import HedTag
     case = rec.get("case") or (rec.get("disagreements") or [{}])[0].get("case")
     if not case:
         print("nothing to replay (obligation-only record):", rec.get("broken_obligations"))
         return
+    if case.get("bulk"):
+        return replay_bulk(ctx, case)
     name, ns = case["schema"], case.get("ns", "")
     vocab = schema_xml.read(schema_xml.bundled()[name])
     schema = load_impl(name, ns)
